@@ -698,11 +698,13 @@ def disown_fn(
 
     messages = []
     # if args.job_ids is empty, use the active task
-    for tid in job_ids or [tasks[0]]:
-        try:
-            current_task = get_task(tid)
-        except KeyError:
+    tids = list(dict.fromkeys(job_ids or [tasks[0]]))
+    # validate every ID before touching the job table
+    for tid in tids:
+        if tid not in get_jobs():
             return "", f"'{tid}' is not a valid job ID"
+    for tid in tids:
+        current_task = get_task(tid)
 
         auto_cont = XSH.env.get("AUTO_CONTINUE", False)
         if auto_cont or force_auto_continue:
